@@ -79,6 +79,7 @@ class Intervals:
         self.contains = {}      # bool local -> (range local or promoted const, tested local)
         self.sink_facts = []    # filled by run(): (block, kind, detail, ok)
         self.promoted = body.mir.get("promoted") or []
+        self.b_defs = body.defs()
         self._prep()
 
     # ------------------------------------------------------------------ preparation
@@ -304,17 +305,24 @@ class Intervals:
         pa, pb = op_place(lo), op_place(ro)
         if pa is not None and pb is not None and not pa["pr"] and not pb["pr"]:
             ra, rb = self.root(pa["l"]), self.root(pb["l"])
-            if op in ("Ge", "Gt"):
-                st[("rel", ra, rb)] = True      # a >= b
-            elif op in ("Le", "Lt"):
-                st[("rel", rb, ra)] = True
-            elif op == "Eq":
-                st[("rel", ra, rb)] = True
-                st[("rel", rb, ra)] = True
+            # a compared temporary that is a live copy of a (mutable) variable stands for that variable too
+            As = {ra} | ({self.root(st[("cpy", pa["l"])])} if ("cpy", pa["l"]) in st else set())
+            Bs = {rb} | ({self.root(st[("cpy", pb["l"])])} if ("cpy", pb["l"]) in st else set())
+            for xa in As:
+                for xb in Bs:
+                    if op in ("Ge", "Gt"):
+                        st[("rel", xa, xb)] = True      # a >= b
+                    elif op in ("Le", "Lt"):
+                        st[("rel", xb, xa)] = True
+                    elif op == "Eq":
+                        st[("rel", xa, xb)] = True
+                        st[("rel", xb, xa)] = True
         for o, nv in ((lo, na), (ro, nb)):
             p = op_place(o)
             if p is not None and all(e[0] == "*" for e in p["pr"]):
                 self.set_class(st, p["l"], nv)
+                if not p["pr"] and ("cpy", p["l"]) in st:
+                    self.set_class(st, st[("cpy", p["l"])], nv)
         return True
 
     def refine_contains(self, st, bl, truth):
@@ -529,6 +537,14 @@ class Intervals:
                         pay = self.eval_op(st, rv["ops"][0])
                 if not p["pr"]:
                     l = p["l"]
+                    # `l` gets a new value: relations and copy links that mention its old value are void
+                    if len(self.b_defs.get(l, ())) > 1:
+                        for key in [k_ for k_ in st if isinstance(k_, tuple) and ((k_[0] == "rel" and l in k_[1:]) or (k_[0] == "cpy" and (k_[1] == l or st[k_] == l)))]:
+                            st.pop(key, None)
+                    else:
+                        st.pop(("cpy", l), None)
+                    if rv["k"] == "use" and op_place(rv["op"]) is not None and not op_place(rv["op"])["pr"] and ty_range(b.local_ty(l)):
+                        st[("cpy", l)] = op_place(rv["op"])["l"]     # until either side is reassigned, l and the source hold the same value
                     rng = self.local_range(l)
                     if val is not None and rng is not None and ty_range(b.local_ty(l)):
                         st[l] = clip(val, rng)
@@ -633,6 +649,12 @@ class Intervals:
                     if isinstance(key, tuple) and key[0] == "rel":
                         if a and c:
                             new[key] = True
+                        elif key in old:
+                            changed = True
+                        continue
+                    if isinstance(key, tuple) and key[0] == "cpy":
+                        if a is not None and a == c:
+                            new[key] = a
                         elif key in old:
                             changed = True
                         continue
